@@ -8,7 +8,7 @@ Around(l) == (l - 2)..(l + 2)
 SizesQ == {1, 2, 10, 100} \cup Around(200) \cup Around(255) \cup Around(1000) \cup {5000} \cup Around(32767) \cup {40000} \cup Around(65535) \cup {100000}
 SizesT == SizesQ \cup Around(127) \cup Around(249) \cup Around(512) \cup Around(16383) \cup {20000, 50000, 70000, 200000, 1000000}
 HugeDeepQ == {300000, 1000000}
-HugeChainQ == {300000}
+HugeChainQ == {300000, 1000000}
 HugeDeepT == {300000, 1000000, 3000000}
-HugeChainT == {300000, 1000000}
+HugeChainT == {300000, 1000000, 2000000}
 =============================================================================
